@@ -342,14 +342,7 @@ Definition in_domain (c : call) : bool :=
   | FMemberIf => is_list (c_seq c)
   | FAssoc | FRassoc => is_list (c_seq c) && test_symmetric (c_test c)    (* KF test(key, item) *)
   | FAssocIf | FAssocIfNot | FRassocIf => is_list (c_seq c)
-  | FSearch =>
-      bounds2_ok c && not_test_not (c_test c) &&
-      (let w1 := map (key_app (c_key c)) (slice (s_start c) (s_end c l1) l1) in
-       let w2 := map (key_app (c_key c)) (slice (s_start2 c) (s_end2 c l2) l2) in
-       match w1 with
-       | [] => (s_start2 c =? 0)%nat                                   (* KF empty pattern: offset without start2 *)
-       | _ => true
-       end)
+  | FSearch => bounds2_ok c && not_test_not (c_test c)
   | FMismatch =>
       bounds2_ok c && not_test_not (c_test c) &&
       (* KF start = length is rejected unless everything is defaulted on an empty sequence *)
